@@ -234,6 +234,45 @@ fn c17_not_in_block_step() {
 }
 
 
+//@ harness: c17_not_in_block_step_4
+//@   props: C17
+//@   tier: thorough
+//@   kind: complete
+//@   fn: Reader::deserialize_seed_next / deserialize_next_inner from state NotInBlock (block header: count varint, size varint, CompressionCodec::state -> SliceRead::take), datum decoder abstracted by a seed that ignores its deserializer
+//@   domain: every file body of 0..=4 bytes (too short to hold a complete block), every sync marker; one call
+//@   post: empty input => end of stream; non-empty => never a silent end of stream; every error sets the end-of-stream latch (so by c17_broken_and_eof_latches it is reported once); a yielded value leaves the reader InBlock
+#[kani::proof]
+#[kani::unwind(5)]
+#[kani::stub(alloc::fmt::format, stub_format)]
+#[kani::stub(flate2::Decompress::decompress, verif_unreachable_inflate)]
+#[kani::stub(flate2::Decompress::new, verif_unreachable_inflate_new)]
+fn c17_not_in_block_step_4() {
+	let buf: [u8; 4] = kani::any();
+	let len: usize = kani::any();
+	kani::assume(len <= 4);
+	let sync: [u8; 16] = kani::any();
+	let mut r = reader_over!(&buf[..len], sync);
+	let a = step(&mut r);
+	kani::cover!(len == 1 && a == Step::Error, "COV cut inside the count varint");
+	kani::cover!(len == 2 && buf[0] == 2 && a == Step::Error, "COV cut inside the size varint");
+	kani::cover!(a == Step::Val, "COV block of zero-sized values entered");
+	if len == 0 {
+		assert!(a == Step::End, "OBL C17.empty_body.end_of_stream");
+		assert!(!r.pretend_eof_because_yielded_unrecoverable_error, "OBL C17.empty_body.not_an_error");
+	} else {
+		assert!(a != Step::End, "OBL C17.truncated.no_silent_end_of_stream_inside_a_block");
+	}
+	if a == Step::Error {
+		assert!(r.pretend_eof_because_yielded_unrecoverable_error, "OBL C17.framing_error.latches_end_of_stream");
+	}
+	if a == Step::Val {
+		assert!(matches!(r.reader_state, ReaderState::InBlock { .. }), "OBL C17.value.only_from_inside_a_block");
+		assert!(!r.pretend_eof_because_yielded_unrecoverable_error, "OBL C17.value.nothing_latched");
+	}
+	std::mem::forget(r);
+}
+
+
 macro_rules! leave_block_step {
 	($name:ident, $size:expr, $eat:expr) => {
 		#[kani::proof]
